@@ -259,6 +259,9 @@ def handle (o : Ovl) : Msg → Ovl × List Out
 
 /-- what happens locally -/
 inductive Local where
+  | reqSend (id : Nat)        -- a protocol message for tree `id` arrives: `TransmitMsg` → `requestTree`
+                              -- (overlay.go:333-376), the request reaches the peer
+  | reqFail (id : Nat)        -- the same, but the request cannot be sent: `Register`, then `Unregister`
   | request (id : Nat)        -- `requestTree`: `treeStorage.Register` before the request is sent
   | unrequest (id : Nat)      -- the request could not be sent: `treeStorage.Unregister`
   | register (t : Tree)       -- `RegisterTree` of a tree made on this server
@@ -266,7 +269,16 @@ inductive Local where
   | expire (id : Nat)         -- the grace period of a finished tree is over (treestorage.go:123-127)
   deriving DecidableEq, Repr
 
+/-- does `requestTree` get as far as `Register` + `Send`?  Not when the tree is known (the message is
+dispatched) and not when the id is already registered ("request already sent") -/
+def Ovl.wouldRequest (o : Ovl) (id : Nat) : Bool := !(lookup o.store id).isSome
+
 def localStep (o : Ovl) : Local → Ovl
+  | .reqSend id =>
+    if o.wouldRequest id then { o with store := insert o.store id none, everReq := id :: o.everReq } else o
+  | .reqFail id =>
+    -- registered while the send is attempted, unregistered when it fails: the slot is gone again
+    if o.wouldRequest id then { o with everReq := id :: o.everReq } else o
   | .request id =>
     { o with store := if (lookup o.store id).isSome then o.store else insert o.store id none,
              everReq := id :: o.everReq }
@@ -459,6 +471,16 @@ def step (st : State) (toks : List String) : State × String :=
   | ["h.request", id] =>
     match id.toNat? with
     | some id => let o := localStep st.ovl (.request id); ({ st with ovl := o }, showStore o)
+    | none => (st, "bad-op")
+  | ["h.reqsend", id] =>
+    match id.toNat? with
+    | some id =>
+      let o := localStep st.ovl (.reqSend id)
+      ({ st with ovl := o }, (if st.ovl.wouldRequest id then s!"out[reqtree({id})] " else "out[] ") ++ showStore o)
+    | none => (st, "bad-op")
+  | ["h.reqfail", id] =>
+    match id.toNat? with
+    | some id => let o := localStep st.ovl (.reqFail id); ({ st with ovl := o }, "out[] " ++ showStore o)
     | none => (st, "bad-op")
   | ["h.unrequest", id] =>
     match id.toNat? with
